@@ -19,8 +19,8 @@ _KNOWN = {
     "Database for WrapDatabaseRef<T>": "verus",
     "Database for DatabaseComponents<S, BH>": "kani (methods) + verus finding (has_storage)",
     "DatabaseRef for DatabaseComponents<S, BH>": "kani (methods) + verus finding (has_storage_ref)",
-    "Database for CacheDB<ExtDB>": "verus",
-    "DatabaseRef for CacheDB<ExtDB>": "verus",
+    "Database for CacheDB<ExtDB>": "verus (+ kani kcachedb, bounded: has_storage)",
+    "DatabaseRef for CacheDB<ExtDB>": "verus (+ kani kcachedb, bounded: has_storage_ref, storage_ref, basic_ref)",
     "Database for EmptyDBTyped<E>": "verus",
     "DatabaseRef for EmptyDBTyped<E>": "verus",
     "Database for State<DB>": "verus: code_by_hash, has_storage; basic/storage/block_hash NOT covered",
